@@ -93,6 +93,8 @@ type Broker struct {
 	AssignAliases bool
 	// Datagrams: client transports also offer a datagram channel; the broker side of it (Inc.Dgram) takes what the harness sends
 	Datagrams bool
+	// HoldWrites: while non-nil, every write of a client transport waits until the channel is closed
+	HoldWrites chan struct{}
 	// FirstCloseErr: what Close of a client transport returns the first time (the transport is closed all the same)
 	FirstCloseErr error
 	// ResumeCodes: result codes for the next resume requests (then success)
@@ -114,6 +116,7 @@ type cliTransport struct {
 	transport.ReadWriter
 	params transport.NegotiationParams
 	closed atomic.Bool
+	b      *Broker
 	firstCloseErr error
 	dgram transport.ReadWriter // non-nil: the transport also has a datagram channel (AsUnreliable)
 }
@@ -121,6 +124,19 @@ type cliTransport struct {
 type dgramSide struct{ transport.ReadWriter }
 
 func (dgramSide) IsUnreliable() {}
+
+// Write: while Broker.HoldWrites is set, writes of the client wait for it to be closed (a slow link)
+func (c *cliTransport) Write(bs []byte) error {
+	if c.b != nil {
+		c.b.mu.Lock()
+		g := c.b.HoldWrites
+		c.b.mu.Unlock()
+		if g != nil {
+			<-g
+		}
+	}
+	return c.ReadWriter.Write(bs)
+}
 
 // Close: like the QUIC and WebSocket transports, a second Close reports that the transport was closed already.
 func (c *cliTransport) Close() error {
@@ -228,7 +244,7 @@ func (b *Broker) dial(c transport.DialConfig) (transport.Transport, error) {
 	fce := b.FirstCloseErr
 	dg := b.Datagrams
 	b.mu.Unlock()
-	ct := &cliTransport{ReadWriter: cliRaw, params: p, firstCloseErr: fce}
+	ct := &cliTransport{ReadWriter: cliRaw, params: p, firstCloseErr: fce, b: b}
 	if dg {
 		srvD, cliD := transport.Pipe()
 		ct.dgram = cliD
@@ -357,7 +373,12 @@ func (i *Inc) auto(m message.Message) {
 		}
 	case *message.Disconnect:
 		if b.on("disconnect") {
-			i.Kill()
+			// the client closes its side right after its Disconnect; the broker keeps reading for a moment, so that anything
+			// the client still sends (a second Disconnect, traffic after the Disconnect) is on the record
+			go func() {
+				time.Sleep(30 * time.Millisecond)
+				i.Kill()
+			}()
 		}
 	case *message.UpstreamOpenRequest:
 		if !b.on("upopen") {
